@@ -853,7 +853,7 @@ func PrintFunction(name string) ZlispUserFunction {
 					case *SexpTime:
 						ar[i] = x.Tm.In(NYC)
 					default:
-						ar[i] = args[i+1]
+						ar[i] = sexpFormatter{args[i+1]}
 					}
 				}
 				if name == "printf" {
@@ -867,6 +867,24 @@ func PrintFunction(name string) ZlispUserFunction {
 
 		return SexpNull, nil
 	}
+}
+
+// sexpFormatter is how printf and sprintf hand a value that is not a
+// number, bool, char, string or time to the fmt package: every verb shows
+// the value as the interpreter prints it (an array as [1 2], a hash as
+// (hash a:1)), except %p, which shows the address of the value. Handing the
+// Go pointer itself to fmt would print the Go struct behind it, addresses
+// and all.
+type sexpFormatter struct {
+	x Sexp
+}
+
+func (s sexpFormatter) Format(f fmt.State, verb rune) {
+	if verb == 'p' {
+		fmt.Fprintf(f, "%p", s.x)
+		return
+	}
+	fmt.Fprint(f, s.x.SexpString(nil))
 }
 
 func NotFunction(env *Zlisp, name string, args []Sexp) (Sexp, error) {
